@@ -48,8 +48,8 @@ def replay_adversary(run, r, c):
             direction, d = log[-r.randint(70, min(len(log), 600))]
             w.net.inject(direction, c.addr, d, "replay:beyond-32-window")
             run.c.inc("adv_replay_beyond_window")
-        elif x < 0.40 and len(log) > 700:
-            direction, d = log[r.randrange(0, len(log) - 650)]
+        elif x < 0.40 and len(log) > 380:
+            direction, d = log[r.randrange(0, len(log) - 330)]
             w.net.inject(direction, c.addr, d, "replay:old")
             run.c.inc("adv_replay_old")
         elif x < 0.408:
@@ -65,13 +65,14 @@ def replay_adversary(run, r, c):
                     run.app.send(sc, "server", r.choice([11, 12, 20]), 0, with_cb=False)
             run.c.inc("message_bursts")
     w.tick_hooks.append(tick)
+    return lambda: w.tick_hooks.remove(tick)
 
 
 def run_shard(cfg):
     out = {"violations": [], "counters": Counter(), "samples": [], "distinct": set()}
     n = c05.run_faults(cfg, out, props=PROPS, tag="C04", extra=replay_adversary,
                        profiles_pool=["dup", "dup", "reorder", "hostile", "acks-lost", "slow", "lossy"])
-    return {"evaluations": n, "distinct": sorted(out["distinct"]), "counters": dict(out["counters"]),
+    return {"evaluations": n, "distinct": sorted(out["distinct"]), "distinct_count": out.get("distinct_n", 0), "counters": dict(out["counters"]),
             "violations": out["violations"][:60], "samples": out["samples"]}
 
 
@@ -85,9 +86,9 @@ def finish(tier, seed, results):
         "distinct_nontrivial": m["distinct_nontrivial"],
         "rule": "one evaluation = one application send inside a seeded world with heavy duplication/reordering/ack loss (so that "
                 "retransmissions race acks), message bursts that move the 256-message window, and an adversary that replays recorded "
-                "datagrams of the session right away, 70-600 datagrams later and >650 datagrams later (always far below 32767 apart). "
+                "datagrams of the session right away, 70-600 datagrams later and >330 datagrams later (always far below 32767 apart). "
                 "Every delivery is matched to its send by the unique id in the payload; every copy of an accepted datagram must be "
-                "dropped whole. distinct = distinct fault worlds",
+                "dropped whole. distinct = application sends made inside fault worlds (unique payload id, own network fate)",
         "fault_classes": ["network duplication (1-3 copies)", "reordering", "ack loss", "replay:recent", "replay:beyond-32-window",
                           "replay:old (beyond both windows)", "retransmission (BEST_EFFORT / RETRY_ON_TIMEOUT)"],
         "samples": m["samples"],
